@@ -278,8 +278,13 @@ def write_evidence(ctx, run, t0, violations, extra_assumptions=()):
         'wall_s': round(time.time() - t0, 2),
         'violations': violations,
     }
-    d = VERIF / 'evidence'
-    d.mkdir(exist_ok=True)
+    if os.path.realpath(str(common.REPO)) == os.path.realpath('/repo'):
+        d = VERIF / 'evidence'
+    else:
+        # a run against another tree ($PYXTUML_REPO: seeded regressions, scratch mutants) must not overwrite the
+        # evidence of the repository itself
+        d = VERIF / 'replays' / ctx.prop
+    d.mkdir(parents=True, exist_ok=True)
     (d / ('%s.json' % ctx.prop)).write_text(json.dumps(common.jsonable(ev), indent=1))
     return ev
 
